@@ -55,7 +55,8 @@ LEVEL_NOTE = (
 TECHNIQUE = "bounded-exhaustive enumeration of template names over a path grammar x loader kinds against a containment oracle on a real file sandbox"
 ASSUMPTIONS = ["POSIX file system", "file content identifies the file"]
 
-SEGMENTS = ["a", "sub", "a.html", "..", ".", "", "outside", "s2", "é.html", "~", "%2e%2e", "..\\", "b"]
+SEGMENTS = ["a", "sub", "a.html", "..", ".", "", "outside", "s2", "é.html", "~", "%2e%2e", "..\\", "b",
+            "\u2025", "\uff0e\uff0e"]  # (compatibility characters that normalise to '..')
 
 _W: dict[str, Any] = {}
 
@@ -96,17 +97,25 @@ def world() -> dict[str, Any]:
         "package-paths": (lambda: PackageLoader("pkg_c13", package_path=["templates", "other"]), [pk, os.path.join(root, "pkg_c13", "other")]),
         "choice": (lambda: ChoiceLoader([FileSystemLoader(s1), PackageLoader("pkg_c13")]), [s1, pk]),
         "caching-choice": (lambda: CachingChoiceLoader([FileSystemLoader(s2), FileSystemLoader(s1, ext=".html")]), [s1, s2]),
+        # two choice loaders whose roots are disjoint (two tenants)
+        "choice-s1": (lambda: ChoiceLoader([FileSystemLoader(s1)]), [s1]),
+        "choice-s2": (lambda: ChoiceLoader([FileSystemLoader(s2), PackageLoader("pkg_c13", package_path="other")]), [s2, os.path.join(root, "pkg_c13", "other")]),
     }
     _W.update(pid=pid, root=root, s1=s1, s2=s2, outside=outside, loaders=loaders, envs={})
     return _W
 
 
 def prefixes(w: dict[str, Any]) -> list[str]:
-    return ["", "/", w["outside"] + "/", w["s1"] + "/", w["root"] + "/"]
+    # (the last one spells the absolute path of the outside directory with FULLWIDTH SOLIDUS instead of '/')
+    return ["", "/", w["outside"] + "/", w["s1"] + "/", w["root"] + "/", w["outside"].replace("/", "\uff0f") + "\uff0f"]
+
+
+# names the file system itself refuses (a component longer than NAME_MAX, a path longer than PATH_MAX, a NUL byte)
+EXTRA_NAMES = ["x" * 300, "sub/" + "x" * 300, "x" * 5000, "a/" * 2500 + "a", "a\x00b", "sub/a\x00.html", "x" * 300 + "/../a.html"]
 
 
 def names_of_len(L: int, w: dict[str, Any]) -> list[str]:
-    out = []
+    out = list(EXTRA_NAMES) if L == 1 else []
     for segs in itertools.product(SEGMENTS, repeat=L):
         body = "/".join(segs)
         for pre in prefixes(w):
@@ -196,8 +205,57 @@ def check_one(w: dict[str, Any], lname: str, entry: str, name: str, res: ShardRe
     return out
 
 
+# ---- histories: what a loader serves must not depend on what was asked before, of it or of another loader
+
+HIST_ENTRIES = ("get", "get-async", "include-var-async")
+
+
+def load_with(env: Any, entry: str, name: str) -> tuple[str, Any]:
+    try:
+        if entry == "get":
+            return ("ok", env.get_template(name).render())
+        if entry == "get-async":
+            return _async(_get(env, name))
+        return _async(env.from_string("{% include n %}").render_async(n=name))
+    except TemplateNotFoundError:
+        return ("notfound", None)
+    except LiquidError as e:
+        return ("liquid", type(e).__name__)
+    except Exception as e:  # noqa: BLE001
+        return ("foreign", type(e).__name__)
+
+
+def check_history(w: dict[str, Any], first: str, second: str, entry: str, name: str, res: ShardResult | None) -> list[tuple[str, Any, Any]]:
+    """Ask loader `first` for `name` (twice, sync then the given entry), then loader `second` (a different INSTANCE; the
+    same kind when first == second) for the same name. Every answer is checked against the roots of the loader asked,
+    and the second loader's answer must equal what a loader that was never used before answers."""
+    out: list[tuple[str, Any, Any]] = []
+    env1 = Environment(loader=w["loaders"][first][0]())
+    fresh = load(w, second, entry, name)
+    steps = [(first, env1, "get"), (first, env1, entry)]
+    env2 = env1 if first == second else Environment(loader=w["loaders"][second][0]())
+    steps.append((second, env2, entry))
+    for i, (lname, env, ent) in enumerate(steps):
+        got = load_with(env, ent, name)
+        roots = w["loaders"][lname][1]
+        if res is not None:
+            res.evaluations += 1
+            res.outcomes.add(h64([got[0], lname, i]))
+        if got[0] == "ok" and not inside(got[1], roots):
+            out.append((f"C13:served-file-outside-roots:after-history:{_nameclass(name, w)}", {"roots": "<configured search dirs>", "step": i}, {"served": _rel(got[1], w)}))
+        elif got[0] == "ok" and must_fail(name):
+            out.append((f"C13:absolute-or-parent-name-served:after-history:{_nameclass(name, w)}", "TemplateNotFoundError", {"served": _rel(got[1], w), "step": i}))
+        elif must_fail(name) and got[0] != "notfound":
+            out.append((f"C13:absolute-or-parent-name-not-TemplateNotFound:after-history:{got[0]}", "TemplateNotFoundError", list(got)))
+    if got[0] != fresh[0] or (got[0] == "ok" and got[1] != fresh[1]):
+        out.append((f"C13:answer-depends-on-history:{_nameclass(name, w)}", {"never_used_loader": [fresh[0], _rel(str(fresh[1]), w)]}, {"after_history": [got[0], _rel(str(got[1]), w)]}))
+    if res is not None and (got[0] == "ok" or must_fail(name)):
+        res.nontrivial.add(h64([first, second, entry, name]))
+    return out
+
+
 def _rel(path: str, w: dict[str, Any]) -> str:
-    return path.replace(w["root"], "<sandbox>")
+    return path.replace(w["root"], "<sandbox>").replace(w["root"].replace("/", "\uff0f"), "<sandbox>".replace("/", "\uff0f"))
 
 
 def _nameclass(name: str, w: dict[str, Any]) -> str:
@@ -226,6 +284,18 @@ def plan(tier: str, seed: int):
                 for lo, hi in chunks(n, max(1, n // 3000)):
                     shards.append((tier, ln, lname, entry, lo, hi))
                 total += n
+    # histories over names of one segment (and two for the same-instance histories)
+    n1 = len(names_of_len(1, w))
+    n2 = len(names_of_len(2, w))
+    for first in lnames:
+        for second in lnames:
+            for entry in HIST_ENTRIES:
+                n = n2 if first == second else n1
+                if first != second and not ({first, second} & {"choice", "caching-choice", "choice-s1", "choice-s2", "caching-fs"}):
+                    continue  # (pairs of plain loaders of different kinds share no code path that could keep state: sampled by the choice/caching pairs)
+                shards.append((tier, "H", (first, second), entry, 0, n))
+                total += n
+    subs["histories"] = sum(sh[5] for sh in shards if sh[1] == "H")
     meta = {
         "space_size": total,
         "subspaces": subs,
@@ -240,6 +310,18 @@ _NAMES: dict[int, list[str]] = {}
 def run_shard(shard) -> ShardResult:
     tier, ln, lname, entry, lo, hi = shard
     w = world()
+    if ln == "H":
+        first, second = lname
+        L = 2 if first == second else 1
+        if L not in _NAMES:
+            _NAMES[L] = names_of_len(L, w)
+        res = ShardResult()
+        for i in range(lo, hi):
+            name = _NAMES[L][i]
+            res.cases += 1
+            for sig, exp, obs in check_history(w, first, second, entry, name, res):
+                res.violation(sig, {"history": [first, second], "entry": entry, "name": _rel(name, w)}, exp, obs)
+        return res
     if ln not in _NAMES:
         _NAMES[ln] = names_of_len(ln, w)
     names = _NAMES[ln]
@@ -268,6 +350,12 @@ def replay(case: dict[str, Any]) -> list[dict[str, Any]]:
     w = world()
     res = ShardResult()
     name = case["name"].replace("<sandbox>", w["root"])
+    # (the fullwidth spelling of the sandbox path is rebuilt too)
+    name = name.replace("<sandbox>".replace("/", "\uff0f"), w["root"].replace("/", "\uff0f"))
+    if "history" in case:
+        for sig, exp, obs in check_history(w, case["history"][0], case["history"][1], case["entry"], name, None):
+            res.violation(sig, case, exp, obs)
+        return res.violations
     for sig, exp, obs in check_one(w, case["loader"], case["entry"], name, None):
         res.violation(sig, case, exp, obs)
     return res.violations
